@@ -26,7 +26,10 @@ Non-trivial = the history contains a fault operation followed by at least N furt
           "a probe that neither answers nor closes within 5 s while process and worker set are healthy is reported as inconclusive, not as a violation"],
         if tier == Tier::Quick { 900 } else { 14400 },
     );
-    s.case_limit_s = 300;
+    // a history is bounded (it ends at the first time-out) and Server::process on a mock transport returns within microseconds:
+    // a case that has not ended after 120 s did not return - a worker that is lost for good
+    s.case_limit_s = 120;
+    s.hang_is_violation = true;
     // the pool half runs in the shuttle engine
     s.foreign_workers = Some((super::c07::sched_bin(), 4));
     s
@@ -104,7 +107,7 @@ fn history_strategy(max_ops: usize) -> impl Strategy<Value = History> {
         .prop_map(|(workers, ops)| History { workers, ops })
 }
 
-const LIMIT: Duration = Duration::from_secs(5);
+const LIMIT: Duration = Duration::from_secs(3);
 
 fn is_fault(op: &Op) -> bool { !matches!(op, Op::Valid(_)) }
 
@@ -113,6 +116,7 @@ pub fn run_history(ctx: &Ctx, docroot: &std::path::Path, h: &History) -> Verdict
     let mut srv = match Server::start(&ServerOpts::new(docroot, n)) { Ok(s) => s, Err(e) => { ctx.inconclusive(&format!("server start: {}", e)); return Verdict::Discard; } };
     let mut held: Vec<std::net::TcpStream> = vec![];
     let mut problems: Vec<(String, String)> = vec![];
+    let mut stalled: Option<String> = None;
     let describe_op = |i: usize, op: &Op| format!("after operation {} ({})", i, match op { Op::Mutant(b) => format!("Mutant {}", crate::fw::util::lossy(&b.0, 60)), o => format!("{:?}", o) });
     'ops: for (i, op) in h.ops.iter().enumerate() {
         let t_op = std::time::Instant::now();
@@ -128,12 +132,12 @@ pub fn run_history(ctx: &Ctx, docroot: &std::path::Path, h: &History) -> Verdict
                         let want: u16 = match k % 6 { 3 => 206, 4 => 404, 5 => if FIXED_PATHS[*k as usize % FIXED_PATHS.len()] == "/missing" || FIXED_PATHS[*k as usize % FIXED_PATHS.len()].starts_with("/noindex") && !FIXED_PATHS[*k as usize % FIXED_PATHS.len()].ends_with(".css") { 404 } else { 200 }, _ => 200 };
                         if r.status != want { problems.push(("valid-request-answered-with-wrong-status".into(), format!("{}: status {} where {} is expected", describe_op(i, op), r.status, want))); break 'ops; }
                     }
-                    (Outcome::TimedOut, _) => { if srv.exited().is_none() && srv.missing_workers().is_empty() { ctx.inconclusive(&format!("valid request not answered within {:?} although process and workers look healthy ({})", LIMIT, describe_op(i, op))); return Verdict::Discard; } problems.push(("valid-request-not-answered".into(), format!("{}: no response within {:?}; exited={:?} missing workers={:?}", describe_op(i, op), LIMIT, srv.exited(), srv.missing_workers()))); break 'ops; }
+                    (Outcome::TimedOut, _) => { stalled = Some(describe_op(i, op)); held.clear(); let busy = srv.busy_workers(Duration::from_millis(80)); if !busy.is_empty() { problems.push(("worker-never-returns-to-the-queue".into(), format!("{}: no response within {:?}; with every other connection closed the worker thread(s) {:?} keep running", describe_op(i, op), LIMIT, busy))); break 'ops; } if srv.exited().is_none() && srv.missing_workers().is_empty() { ctx.inconclusive(&format!("valid request not answered within {:?} although process and workers look healthy ({})", LIMIT, describe_op(i, op))); return Verdict::Discard; } problems.push(("valid-request-not-answered".into(), format!("{}: no response within {:?}; exited={:?} missing workers={:?}", describe_op(i, op), LIMIT, srv.exited(), srv.missing_workers()))); break 'ops; }
                     (o, _) => { problems.push(("valid-request-not-answered".into(), format!("{}: outcome {:?}, {} bytes; exited={:?} missing workers={:?}", describe_op(i, op), o, ex.bytes.len(), srv.exited(), srv.missing_workers()))); break 'ops; }
                 }
             }
-            Op::Faulty(k) => { if held.len() as u32 >= n { held.clear(); } let _ = srv.roundtrip(&faulty_request(*k), LIMIT); }
-            Op::Mutant(b) => { if held.len() as u32 >= n { held.clear(); } let _ = srv.roundtrip(&b.0, LIMIT); }
+            Op::Faulty(k) => { if held.len() as u32 >= n { held.clear(); } if srv.roundtrip(&faulty_request(*k), LIMIT).outcome == Outcome::TimedOut { stalled = Some(describe_op(i, op)); break 'ops; } }
+            Op::Mutant(b) => { if held.len() as u32 >= n { held.clear(); } if srv.roundtrip(&b.0, LIMIT).outcome == Outcome::TimedOut { stalled = Some(describe_op(i, op)); break 'ops; } }
             Op::ConnectClose => { if let Ok(s) = srv.connect() { drop(s); } }
             Op::ConnectReset => { if let Ok(s) = srv.connect() { net::reset(s); } }
             Op::HalfThenClose(f) | Op::HalfThenReset(f) => {
@@ -166,8 +170,12 @@ pub fn run_history(ctx: &Ctx, docroot: &std::path::Path, h: &History) -> Verdict
     }
     held.clear();
     if problems.is_empty() {
-        // give queued work a moment, then the invariant
+        // every client connection is closed now: after a moment for queued work, no worker may still be running
         if let Some(e) = srv.exited() { problems.push(("server-process-gone".into(), format!("after the history: {}", e))); }
+        else if { std::thread::sleep(Duration::from_millis(if stalled.is_some() { 100 } else { 10 })); let b = srv.busy_workers(Duration::from_millis(60)); !b.is_empty() && { std::thread::sleep(Duration::from_millis(300)); !srv.busy_workers(Duration::from_millis(80)).is_empty() } } {
+            let busy = srv.busy_workers(Duration::from_millis(80));
+            problems.push(("worker-never-returns-to-the-queue".into(), format!("after the history, with every client connection closed, the worker thread(s) {:?} of {} keep running (state R / CPU time advancing){}", busy, n, stalled.as_ref().map(|s| format!("; the history stalled {}", s)).unwrap_or_default())));
+        }
         else {
             // a valid probe
             let ex = srv.roundtrip(&valid_request(0), LIMIT);
@@ -221,7 +229,7 @@ pub fn run(ctx: &Ctx) {
     let tree = match fixed_docroot() { Ok(t) => t, Err(e) => { ctx.inconclusive(&format!("docroot: {}", e)); return; } };
     let root = tree.root.clone();
     let max_ops = if ctx.quick() { 160 } else { 300 };
-    *ctx.max_shrink_iters.borrow_mut() = 200;
+    *ctx.max_shrink_iters.borrow_mut() = 24;
     ctx.prop("histories", ctx.share(ctx.scale(480, 12000)), history_strategy(max_ops), |h| run_history(ctx, &root, h));
     let fs = (any::<u8>(), any::<bool>(), prop_oneof![3 => (0usize..800).prop_map(WriteScript::ErrAfter), 1 => Just(WriteScript::Zero), 1 => Just(WriteScript::Unlimited), 1 => (1usize..50).prop_map(WriteScript::Chunk)], proptest::bool::weighted(0.3), proptest::bool::weighted(0.2))
         .prop_map(|(request, faulty, script, flush_err, read_err)| FaultCase { request, faulty, script, flush_err, read_err });
